@@ -241,11 +241,29 @@ def gen_cfg(prop, tier, seed, i):
             w['operator'] = 1.0
             cfg['readd_anytime'] = False
             cfg['consumers'] = []
+        r3 = random.Random(h32('c09ver', seed, i))
+        if r3.random() < 0.12 and cfg.get('sim') is None:
+            # the enabled code version is part of a snapshot: some cases run generated classes with versioned methods,
+            # version switches and replacement of old code
+            cfg['sim'] = 'version'
+            cfg['n'] = pick(r3, [2, 3, 3])
+            cfg['n_old'] = pick(r3, [0, 1])
+            cfg['journal'] = 'file+dump'        # (replacing a node's code is a restart: it has to find its log again)
+            cfg['w_version'] = pick(r3, [0.3, 0.6])
+            cfg['w_replace'] = 0.3
+            cfg['consumers'] = []
+            cfg.pop('big_args', None)
+            cfg.pop('kill_points', None)
+            cfg.pop('kill_tags', None)
+            w['kill'] = 0
+            w['restart'] = 1.0
         cfg['flapxfer'] = pick(r, [0.0, 0.05, 0.3])
         # a slower machine (more virtual time per clock read): snapshot transfers then span several leader ticks
         cfg['clock_eps'] = pick(r, [2e-5, 2e-4, 1e-3], [3, 2, 2])
         cfg['steps'] = pick(r, [800, 2000, 4000], [2, 3, 2])
-        if cfg['journal'] in ('file+dump', 'dump'):
+        if cfg['journal'] in ('file+dump', 'dump') and cfg.get('sim') != 'version':
+            # (user-supplied serializer functions are not handed the enabled code version, so they are not combined with
+            # version switches)
             # serializer modes of the statement: inline file write, fork child, user-supplied functions (sync / with checker)
             cfg['ser_mode'] = pick(random.Random(h32('sermode', prop, seed, i)), ['file', 'fork', 'user', 'user_async'], [3, 3, 2, 2])
     if prop == 'C06' and cfg['journal'] == 'file+dump':
@@ -266,6 +284,16 @@ def gen_cfg(prop, tier, seed, i):
         cfg['ext'] = ['snapshot']
         cfg['readd_anytime'] = False    # literal-discipline re-adds (listed hazard) are not generated, see DESIGN.md
         cfg['wait_leader'] = r.random() < 0.3
+        r2 = random.Random(h32('c10jr', seed, i))
+        if r2.random() < 0.12:
+            # journaled members with dump files that are killed (between steps) and restarted: the member set has to come back
+            # from dump + journal, whatever list the process is started with
+            cfg['journal'] = 'file+dump'
+            cfg['compact_min'] = pick(r2, [5, 20])
+            w['compact'] = 0.6
+            w['kill'] = pick(r2, [0.2, 0.5])
+            w['restart'] = 1.5
+            cfg['restart_with_first_list'] = True
     if prop == 'C16':
         cfg['sim'] = 'lock'
         cfg['n'] = pick(r, [2, 3, 3])
